@@ -95,12 +95,13 @@ def main(argv=None):
     rc = 0
     for sig in sorted(known_hit):
         print("KNOWN-FINDING: property=%s %s [%s] (%d occurrences)" % (pid, known_sigs[sig]["description"], sig, col.viol_sigs[sig]))
-    os.makedirs(os.path.join(HERE, "replays"), exist_ok=True)
+    OUT = os.environ.get("VERIF_OUT", HERE)
+    os.makedirs(os.path.join(OUT, "replays"), exist_ok=True)
     for sig in sorted(new_sigs):
         v = dict(new_sigs[sig])
         v["property"] = pid
         hid = hashlib.sha1(json.dumps(v, sort_keys=True, default=str).encode()).hexdigest()[:10]
-        path = os.path.join(HERE, "replays", "%s-%s.json" % (pid, hid))
+        path = os.path.join(OUT, "replays", "%s-%s.json" % (pid, hid))
         with open(path, "w") as f:
             json.dump(v, f, indent=1, sort_keys=True, default=str)
         print("VIOLATION property=%s replay=%s" % (pid, path))
